@@ -24,6 +24,12 @@ fn defs() -> Vec<CheckDef> {
         CheckDef { id: "C08", worker: checks::c08::worker, replay: Some(checks::c08::replay), crash_is_violation: false },
         CheckDef { id: "C09", worker: checks::c09::worker, replay: Some(checks::c09::replay), crash_is_violation: false },
         CheckDef { id: "C10", worker: checks::c10::worker, replay: Some(checks::c10::replay), crash_is_violation: false },
+        CheckDef { id: "C14", worker: checks::simchecks::worker_c14, replay: Some(checks::simchecks::replay), crash_is_violation: true },
+        CheckDef { id: "C15", worker: checks::simchecks::worker_c15, replay: Some(checks::simchecks::replay), crash_is_violation: false },
+        CheckDef { id: "C16", worker: checks::simchecks::worker_c16, replay: Some(checks::simchecks::replay), crash_is_violation: false },
+        CheckDef { id: "C17", worker: checks::simchecks::worker_c17, replay: Some(checks::simchecks::replay), crash_is_violation: false },
+        CheckDef { id: "C18", worker: checks::simchecks::worker_c18, replay: Some(checks::simchecks::replay), crash_is_violation: false },
+        CheckDef { id: "C19", worker: checks::simchecks::worker_c19, replay: Some(checks::simchecks::replay), crash_is_violation: true },
         CheckDef { id: "C02", worker: checks::c02::worker, replay: Some(checks::c02::replay), crash_is_violation: false },
         CheckDef { id: "C03", worker: checks::c03::worker, replay: Some(checks::c03::replay), crash_is_violation: false },
         CheckDef { id: "C04", worker: checks::c04::worker, replay: Some(checks::c04::replay), crash_is_violation: false },
@@ -216,7 +222,7 @@ fn supervise(id: &str, tier: &str) -> i32 {
     // confirm reproducibility of every history-replayable violation before it becomes a verdict
     let mut confirmed = vec![];
     for r in reported {
-        if let (Some(rp), true) = (d.replay, r.replay.get("ops").is_some()) {
+        if let (Some(rp), true) = (d.replay, r.replay.get("ops").is_some() || r.replay.get("system").is_some()) {
             vharness::explore::install_quiet_panic_hook();
             match rp(&r.replay) {
                 Ok(Some(_)) => confirmed.push(r),
